@@ -66,8 +66,14 @@ def beamsplitter(i, j, theta_key, k):
     else:
         raise KeyError(theta_key)
     phi = k * np.pi / 2
+    # exact derivatives (same denominator): d/dtheta [[c, -e^{-i phi} s], [e^{i phi} s, c]] = [[-s, -e^{-i phi} c], [e^{i phi} c, -s]],
+    # d/dphi = [[0, i e^{-i phi} s], [i e^{i phi} s, 0]]
+    cn, sn = {"pi/4": (1, 1), "atan(4/3)": (3, 4), "pi/2": (0, 1), "3pi/4": (-1, 1)}[theta_key]
+    dth = [[ring(-sn), rneg(rconj(rscale(cn, u)))], [rscale(cn, u), ring(-sn)]]
+    dph = [[ring(0), rmul(UNIT[1], rconj(rscale(sn, u)))], [rmul(UNIT[1], rscale(sn, u)), ring(0)]]
     return {"name": f"BS({theta_key},{k}pi/2)", "modes": (i, j), "M": M, "g2": g2, "g5": g5, "diag": False, "kind": "lin",
-            "mk": lambda pq, theta=theta, phi=phi: pq.Beamsplitter(theta=theta, phi=phi), "passive": True}
+            "mk": lambda pq, theta=theta, phi=phi: pq.Beamsplitter(theta=theta, phi=phi), "passive": True,
+            "dM": [("theta", dth), ("phi", dph)], "cls": "Beamsplitter", "params": {"theta": theta, "phi": phi}}
 
 
 def beamsplitter5050(i, j):
@@ -84,12 +90,13 @@ def phaseshifter(i, k8):
         base = {1: ring(1, 0, 1, 0), 3: ring(-1, 0, 1, 0), 5: ring(-1, 0, -1, 0), 7: ring(1, 0, -1, 0)}[k8 % 8]
         M, g2 = [[base]], 1
     return {"name": f"PS({k8}pi/4)", "modes": (i,), "M": M, "g2": g2, "g5": 0, "diag": False, "kind": "lin",
-            "mk": lambda pq, phi=k8 * np.pi / 4: pq.Phaseshifter(phi=phi), "passive": True}
+            "mk": lambda pq, phi=k8 * np.pi / 4: pq.Phaseshifter(phi=phi), "passive": True,
+            "dM": [("phi", [[rmul(UNIT[1], M[0][0])]])], "cls": "Phaseshifter", "params": {"phi": k8 * np.pi / 4}}
 
 
 def fourier(i):
     g = phaseshifter(i, 2)
-    g.update(name="Fourier", mk=lambda pq: pq.Fourier())
+    g.update(name="Fourier", mk=lambda pq: pq.Fourier(), dM=[], cls="Fourier", params={})
     return g
 
 
@@ -115,6 +122,11 @@ def matmul(A, B):
                 acc = radd(acc, rmul(A[a][c], B[c][b]))
             out[a][b] = acc
     return out
+
+
+def dgate_record(g):
+    """Seq of derivative matrices of a gate (one per differentiable parameter), for PqOpticsGrad"""
+    return "<< " + ", ".join(tla_mat(M) for _, M in g.get("dM", [])) + " >>"
 
 
 def machzehnder(i, j, kint, kext):
